@@ -2457,13 +2457,27 @@ if __name__ == "__main__":
 CT_LAST = {}
 
 
+# Directed contrasts: a variant that uses the SAME secret stream as the base program but replaces, with probability 1/4 and
+# from a stream of its own, a drawn secret by a special value (zero / one / l - 1, the identity / small-order points, 0 / 1 /
+# p - 1).  The two programs of such a pair differ in a few secrets only, each of them "ordinary versus special": a branch or
+# a size that depends on a secret being exactly zero (or the identity) is met without waiting for a random draw to hit it.
+CT_CONTRAST = None
+
+
+def _contrast(kind, normal):
+    c = CT_CONTRAST
+    if c is not None and c["rng"].random() < 0.25:
+        return c["rng"].choice(c[kind])
+    return normal
+
+
 def ct_point(sec):
     # sometimes the same point as the previous one drawn from this secret stream (coincidences between secrets are secret)
     if "pt" in CT_LAST.get(id(sec), {}) and sec.randrange(4) == 0:
-        return CT_LAST[id(sec)]["pt"]
+        return _contrast("point", CT_LAST[id(sec)]["pt"])
     pt = ct_point_fresh(sec)
     CT_LAST.setdefault(id(sec), {})["pt"] = pt
-    return pt
+    return _contrast("point", pt)
 
 
 def ct_point_fresh(sec):
@@ -2483,10 +2497,10 @@ def ct_point_fresh(sec):
 
 def ct_scalar(sec):
     if "sc" in CT_LAST.get(id(sec), {}) and sec.randrange(5) == 0:
-        return CT_LAST[id(sec)]["sc"]
+        return _contrast("scalar", CT_LAST[id(sec)]["sc"])
     k = ct_scalar_fresh(sec)
     CT_LAST.setdefault(id(sec), {})["sc"] = k
-    return k
+    return _contrast("scalar", k)
 
 
 def ct_scalar_fresh(sec):
@@ -2503,6 +2517,10 @@ def ct_scalar_fresh(sec):
 
 
 def ct_field(sec):
+    return _contrast("field", ct_field_fresh(sec))
+
+
+def ct_field_fresh(sec):
     c = sec.randrange(8)
     if c == 0:
         return sec.randrange(19)                         # loaded in the non-canonical form value + p when possible
@@ -2567,7 +2585,22 @@ def ct_prep_receiver(p, reg, kind, sec):
         p.op("Point.Add", r=reg, a=[reg, reg])
 
 
-def suite_C03(shape_seed, secret_seed, tier):
+def suite_C03(shape_seed, secret_seed, tier, contrast=None):
+    global CT_CONTRAST
+    if contrast is None:
+        CT_CONTRAST = None
+    else:
+        crng = random.Random(contrast * 1299709 + 5)
+        CT_CONTRAST = [{"rng": crng, "scalar": [0], "point": [(0, 1)], "field": [0]},
+                       {"rng": crng, "scalar": [1, L - 1, 2**252, 8], "point": [TORS_PTS[1], TORS_PTS[2], TORS_PTS[4], BPT], "field": [1, P - 1, 2]}][contrast % 2]
+    try:
+        return _suite_C03(shape_seed, secret_seed, tier)
+    finally:
+        CT_CONTRAST = None
+
+
+def _suite_C03(shape_seed, secret_seed, tier):
+    CT_LAST.clear()        # ("the previous secret" is per program suite; the table is keyed by object identity, which is reused)
     sh = random.Random(shape_seed * 7919 + 3)
     sec = random.Random(secret_seed * 104729 + 11)
     g = Gen(0)
